@@ -176,6 +176,8 @@ func (r *CheckRun) harnessCfg(fn *ssa.Function) (Cfg, []string, []string) {
 				cfg.SolverTimeoutMs = n
 			case "sched":
 				cfg.SchedFIFO = v == "fifo"
+			case "slow":
+				cfg.SlowBudget = n
 			case "maporder":
 				cfg.MapOrderIn = v
 			case "maprev":
